@@ -66,6 +66,7 @@ type RunResult struct {
 	Fingerprint uint64         `json:"fingerprint"`
 	Rules       map[string]int `json:"rules,omitempty"`
 	Kinds       map[string]int `json:"kinds,omitempty"`
+	MaxStepGapUs int64         `json:"max_step_gap_us"` // longest silence between two transition steps
 	Dups        int            `json:"dups"`           // duplications of multi-provider processes
 	DupSameIdent int           `json:"dup_same_ident"` // ... holding two channels with one identifier
 	ProcCount   uint64         `json:"proc_count"`
